@@ -56,8 +56,13 @@ def run(crate, harnesses, jobs=16, harness_timeout=900, total_timeout=3600, pref
         cmd += extra
     t0 = time.time()
     with open(log, 'w') as lf:
-        # own process group, so that a timeout takes the CBMC grandchildren down with it
-        p = subprocess.Popen(cmd, cwd=crate, env=env_offline(), stdout=lf, stderr=subprocess.STDOUT,
+        # own process group, so that a timeout takes the CBMC grandchildren down with it; temporary files of the
+        # tools (the CNF files handed to kissat are hundreds of MB) go to a directory of this run, removed below
+        env = env_offline()
+        tmpd = os.path.join(os.path.dirname(os.path.abspath(crate)), 'tmp_%s' % tag)
+        os.makedirs(tmpd, exist_ok=True)
+        env['TMPDIR'] = tmpd
+        p = subprocess.Popen(cmd, cwd=crate, env=env, stdout=lf, stderr=subprocess.STDOUT,
                              preexec_fn=_limit_memory, start_new_session=True)
         try:
             p.wait(timeout=total_timeout)
@@ -68,7 +73,11 @@ def run(crate, harnesses, jobs=16, harness_timeout=900, total_timeout=3600, pref
             except OSError:
                 pass
             p.wait()
+            import shutil
+            shutil.rmtree(tmpd, ignore_errors=True)
             raise ToolFailure('cargo kani exceeded %ds on %s' % (total_timeout, crate))
+        import shutil
+        shutil.rmtree(tmpd, ignore_errors=True)
     wall = time.time() - t0
     if not os.path.exists(out_json):
         with open(log) as lf:
